@@ -5,6 +5,7 @@
 import RbpfModel.Model.Asm
 import RbpfModel.Lemmas.TextLemmas
 namespace Rbpf
+open TextL
 
 /-- the parser never panics -/
 theorem C14_parse_total (cc : Asm.CharClass) (s : List Char) : Asm.parse cc s ≠ .panic :=
